@@ -118,13 +118,13 @@ Proof.
 Qed.
 
 (* ------------------------------------------------------------------ from the model to the oracle *)
-Definition lab (x : qelem) : nat * text :=
-  (match q_src x with Some (i, _) => i | None => O end, q_text x).
+Definition lab (d : bool) (x : qelem) : nat * text :=
+  (match q_src x with Some (i, _) => i | None => O end, line_of d x).
 
-Lemma must_write_elems : forall m i p k, must_write m p = map q_text (elems m i k p).
+Lemma must_write_elems : forall d m vf i p k, must_write d m vf i k p = map (line_of d) (elems m vf i k p).
 Proof.
-  unfold must_write. induction p as [|[lev t] p IH]; intros k; cbn [filter map elems fst]; [reflexivity|].
-  destruct (enabled m lev); cbn [map snd q_text]; [f_equal|]; apply IH.
+  induction p as [|[lev t] p IH]; intros k; cbn [must_write map elems]; [reflexivity|].
+  destruct (enabled m lev); cbn [map]; [f_equal|]; apply IH.
 Qed.
 
 Lemma combine_fst_snd : forall A B (l : list (A * B)), combine (map fst l) (map snd l) = l.
@@ -136,118 +136,141 @@ Proof.
   rewrite Nat.eqb_refl. cbn. apply IH. exact H.
 Qed.
 
+Lemma starts_in_line : forall x, starts_in (line_of true x) = uses_seq true x.
+Proof.
+  intros x. unfold line_of, rest, tag, uses_seq. destruct (Z.eqb (q_val x) 0); reflexivity.
+Qed.
+
+Lemma seq_ok_dir_nums : forall W (f : list (nat * text)) s o,
+  map fst f = nums true s o W -> map snd f = map (line_of true) W -> seq_ok_dir s o f = true.
+Proof.
+  induction W as [|x W IH]; intros [|[n r] f] s o H1 H2; cbn [map nums fst snd] in *; try discriminate; [reflexivity|].
+  injection H2 as -> H2. cbn [seq_ok_dir]. change (tag (q_val x) ++ 32%Z :: q_text x) with (line_of true x). rewrite starts_in_line.
+  destruct (uses_seq true x); injection H1 as -> H1; rewrite Nat.eqb_refl; cbn [andb]; apply IH; assumption.
+Qed.
+
 Lemma prefix_map : forall A B (f : A -> B) a b, prefix a b -> prefix (map f a) (map f b).
 Proof. intros A B f a b [t ->]. exists (map f t). apply map_app. Qed.
 
-Lemma filter_lab : forall i l, (forall x, In x l -> is_prod x = true) ->
-  filter (of i) (map lab l) = map lab (filter (from i) l).
+Lemma filter_lab : forall d i l, (forall x, In x l -> is_prod x = true) ->
+  filter (of i) (map (lab d) l) = map (lab d) (filter (from i) l).
 Proof.
   induction l as [|x l IH]; intros H; cbn [map filter]; [reflexivity|].
   assert (Hx : is_prod x = true) by (apply H; left; reflexivity).
-  assert (E : of i (lab x) = from i x).
+  assert (E : of i (lab d x) = from i x).
   { unfold of, lab, from, is_prod in *. destruct (q_src x) as [[j k]|]; [reflexivity|discriminate]. }
   rewrite E. destruct (from i x); cbn [map]; rewrite IH; auto; intros; apply H; right; assumption.
 Qed.
 
-Lemma map_snd_lab : forall l, map snd (map lab l) = map q_text l.
+Lemma map_snd_lab : forall d l, map snd (map (lab d) l) = map (line_of d) l.
 Proof. intros. rewrite map_map. reflexivity. Qed.
 
-Section Link.
-Variables (m : Z) (ps : list prog) (sched : list tid).
-Let c := run sched (init m ps).
-
-Lemma wrote_is_prod : forall x, In x (wrote c) -> is_prod x = true /\ fst (lab x) < length ps.
+Lemma nth_must_all : forall d m vf ps j i, nth i (must_all d m vf j ps) [] =
+  match nth_error ps i with Some p => must_write d m vf (j + i) 0 p | None => [] end.
 Proof.
-  intros x Hx. destruct (c28_levels_lemma m ps sched x Hx) as [i [k [p [lev [A [B _]]]]]].
+  induction ps as [|p ps IH]; intros j [|i]; cbn [must_all nth nth_error]; try reflexivity.
+  - rewrite Nat.add_0_r. reflexivity.
+  - rewrite IH. replace (S j + i) with (j + S i) by lia. reflexivity.
+Qed.
+
+Lemma must_all_length : forall d m vf ps j, length (must_all d m vf j ps) = length ps.
+Proof. induction ps as [|p ps IH]; intros j; cbn; [reflexivity|]. rewrite IH. reflexivity. Qed.
+
+Section Link.
+Variables (m : Z) (d : bool) (vf : valfn) (ps : list prog) (sched : list tid).
+Let c := run sched (init m d vf ps).
+
+Lemma wrote_is_prod : forall x, In x (wrote c) -> is_prod x = true /\ fst (lab d x) < length ps.
+Proof.
+  intros x Hx. destruct (c28_levels_lemma m d vf ps sched x Hx) as [i [k [p [lev [A [B _]]]]]].
   unfold is_prod, lab. rewrite A. split; [reflexivity|]. cbn. apply nth_error_Some. congruence.
 Qed.
 
-Lemma nth_must_write : forall i, nth i (map (must_write m) ps) [] =
-  match nth_error ps i with Some p => must_write m p | None => [] end.
-Proof.
-  intros i. destruct (nth_error ps i) as [p|] eqn:E.
-  - apply nth_error_nth. rewrite nth_error_map, E. reflexivity.
-  - apply nth_overflow. rewrite map_length. apply nth_error_None. exact E.
-Qed.
+Lemma nth_must_write : forall i, nth i (must_all d m vf 0 ps) [] =
+  match nth_error ps i with Some p => must_write d m vf i 0 p | None => [] end.
+Proof. intros i. rewrite nth_must_all. reflexivity. Qed.
 
-Lemma link_strike : NoDup (concat (map (must_write m) ps)) ->
-  exists R, strike_all (file c) (map (must_write m) ps) = Some R /\ length R = length ps /\
-            forall i, nth i (map (must_write m) ps) [] = map q_text (filter (from i) (wrote c)) ++ nth i R [].
+Lemma link_strike : NoDup (concat (must_all d m vf 0 ps)) ->
+  exists R, strike_all (file c) (must_all d m vf 0 ps) = Some R /\ length R = length ps /\
+            forall i, nth i (must_all d m vf 0 ps) [] = map (line_of d) (filter (from i) (wrote c)) ++ nth i R [].
 Proof.
-  intros Hd. pose proof (Inv_reach m ps sched) as HI. fold c in HI.
-  destruct (i_file _ _ _ HI) as [F1 [F2 _]].
-  assert (Hfile : file c = combine (map fst (file c)) (map snd (map lab (wrote c)))).
+  intros Hd. pose proof (Inv_reach m d vf ps sched) as HI. fold c in HI.
+  destruct (i_file _ _ _ _ _ HI) as [F1 [F2 _]].
+  assert (Hfile : file c = combine (map fst (file c)) (map snd (map (lab d) (wrote c)))).
   { rewrite map_snd_lab, <- F1. symmetry. apply combine_fst_snd. }
   assert (Hprod : forall x, In x (wrote c) -> is_prod x = true) by (intros x Hx; apply wrote_is_prod; exact Hx).
-  destruct (strike_all_spec (map lab (wrote c)) (map fst (file c)) (map (must_write m) ps)) as [R [R1 [R2 R3]]].
+  destruct (strike_all_spec (map (lab d) (wrote c)) (map fst (file c)) (must_all d m vf 0 ps)) as [R [R1 [R2 R3]]].
   - exact Hd.
-  - rewrite F2, seq_length, map_length. reflexivity.
-  - intros i. rewrite (filter_lab i _ Hprod), map_snd_lab, nth_must_write.
+  - rewrite !map_length. rewrite <- (map_length snd (file c)), F1, map_length. reflexivity.
+  - intros i. rewrite (filter_lab d i _ Hprod), map_snd_lab, nth_must_write.
     destruct (nth_error ps i) as [p|] eqn:E.
-    + rewrite (must_write_elems m i p 0). apply prefix_map.
-      exact (proj1 (c28_order_lemma m ps sched i p E)).
+    + rewrite (must_write_elems d m vf i p 0). apply prefix_map.
+      exact (proj1 (c28_order_lemma m d vf ps sched i p E)).
     + assert (Hn : filter (from i) (wrote c) = []).
       { apply nth_error_None in E.
         assert (G : forall l, (forall x, In x l -> In x (wrote c)) -> filter (from i) l = []).
         { induction l as [|x l IH]; intros H; cbn; [reflexivity|].
-          destruct (c28_levels_lemma m ps sched x (H x (or_introl eq_refl))) as [j [k [p [lev [A [B _]]]]]].
+          destruct (c28_levels_lemma m d vf ps sched x (H x (or_introl eq_refl))) as [j [k [p [lev [A [B _]]]]]].
           assert (j < length ps) by (apply nth_error_Some; congruence).
           unfold from at 1. rewrite A. rewrite (proj2 (Nat.eqb_neq j i)) by lia.
           apply IH. intros; apply H; right; assumption. }
         apply G. auto. }
       rewrite Hn. exists []. reflexivity.
-  - intros w Hw. rewrite map_length. apply in_map_iff in Hw. destruct Hw as [x [<- Hx]]. apply wrote_is_prod. exact Hx.
-  - exists R. rewrite <- Hfile in R1. split; [exact R1|]. split; [rewrite R2; apply map_length|].
-    intros i. rewrite (R3 i), (filter_lab i _ Hprod), map_snd_lab. reflexivity.
+  - intros w Hw. rewrite must_all_length. apply in_map_iff in Hw. destruct Hw as [x [<- Hx]]. apply wrote_is_prod. exact Hx.
+  - exists R. rewrite <- Hfile in R1. split; [exact R1|]. split; [rewrite R2; apply must_all_length|].
+    intros i. rewrite (R3 i), (filter_lab d i _ Hprod), map_snd_lab. reflexivity.
 Qed.
 
 (* the soundness half of the oracle holds in every reachable state of the model *)
-Lemma c28_oracle_sound_lemma : NoDup (concat (map (must_write m) ps)) ->
-  file_sound m ps (observe c) = true.
+Lemma c28_oracle_sound_lemma : NoDup (concat (must_all d m vf 0 ps)) ->
+  file_sound d m vf ps (observe c) = true.
 Proof.
   intros Hd. unfold file_sound. cbn [observe o_file].
   destruct (link_strike Hd) as [R [R1 _]]. rewrite R1.
-  pose proof (Inv_reach m ps sched) as HI. fold c in HI. destruct (i_file _ _ _ HI) as [F1 [F2 _]].
-  rewrite seq_ok_seq; [reflexivity|]. rewrite F2. f_equal.
-  rewrite <- (map_length snd (file c)), F1, map_length. reflexivity.
+  pose proof (Inv_reach m d vf ps sched) as HI. fold c in HI. destruct (i_file _ _ _ _ _ HI) as [F1 [F2 _]].
+  assert (N : numbers_ok d (file c) = true); [|rewrite N; reflexivity].
+  unfold numbers_ok. clear R R1 Hd. revert HI F1 F2. destruct d; intros HI F1 F2.
+  - eapply seq_ok_dir_nums; eassumption.
+  - apply seq_ok_seq. rewrite F2, nums_plain. f_equal.
+    rewrite <- (map_length snd (file c)), F1, map_length. reflexivity.
 Qed.
 End Link.
 
 (* the completeness half: stop() called after all producers are done, stop() has returned, no
    program submits the marker *)
-Lemma c28_oracle_complete_lemma : forall m ps s1 s2,
-  NoDup (concat (map (must_write m) ps)) -> no_marker m ps = true ->
-  stopper (run s1 (init m ps)) = SIdle -> all_done (run s1 (init m ps)) = true ->
-  stopper (run s2 (step (run s1 (init m ps)) Stop)) = SDone ->
-  file_complete m ps (observe (run s2 (step (run s1 (init m ps)) Stop))) = true.
+Lemma c28_oracle_complete_lemma : forall m d vf ps s1 s2,
+  NoDup (concat (must_all d m vf 0 ps)) -> no_marker m ps = true ->
+  stopper (run s1 (init m d vf ps)) = SIdle -> all_done (run s1 (init m d vf ps)) = true ->
+  stopper (run s2 (step (run s1 (init m d vf ps)) Stop)) = SDone ->
+  file_complete d m vf ps (observe (run s2 (step (run s1 (init m d vf ps)) Stop))) = true.
 Proof.
-  intros m ps s1 s2 Hd NM Hidle Hdone Hs.
-  assert (E : run s2 (step (run s1 (init m ps)) Stop) = run (s1 ++ Stop :: s2) (init m ps))
+  intros m d vf ps s1 s2 Hd NM Hidle Hdone Hs.
+  assert (E : run s2 (step (run s1 (init m d vf ps)) Stop) = run (s1 ++ Stop :: s2) (init m d vf ps))
     by (unfold run; rewrite fold_left_app; reflexivity).
   unfold file_complete. cbn [observe o_file o_stopped]. rewrite Hs. cbn [andb].
-  rewrite E. destruct (link_strike m ps (s1 ++ Stop :: s2) Hd) as [R [R1 [R2 R3]]]. rewrite R1.
+  rewrite E. destruct (link_strike m d vf ps (s1 ++ Stop :: s2) Hd) as [R [R1 [R2 R3]]]. rewrite R1.
   apply forallb_forall. intros l Hl. apply In_nth with (d := []) in Hl. destruct Hl as [i [Hi <-]].
   rewrite R2 in Hi. destruct (nth_error ps i) as [p|] eqn:Ep; [|apply nth_error_None in Ep; lia].
   specialize (R3 i). rewrite nth_must_write, Ep in R3.
-  pose proof (c28_all_written_done_lemma m ps s1 s2 NM Hidle Hdone Hs i p Ep) as A. rewrite E in A.
-  rewrite A, <- (must_write_elems m i p 0) in R3.
+  pose proof (c28_all_written_done_lemma m d vf ps s1 s2 NM Hidle Hdone Hs i p Ep) as A. rewrite E in A.
+  rewrite A, <- (must_write_elems d m vf i p 0) in R3.
   destruct (nth i R []) as [|x xs]; [reflexivity|]. exfalso.
-  assert (L : length (must_write m p) = length (must_write m p ++ x :: xs)) by (rewrite <- R3; reflexivity).
+  assert (L : length (must_write d m vf i 0 p) = length (must_write d m vf i 0 p ++ x :: xs)) by (rewrite <- R3; reflexivity).
   rewrite app_length in L. cbn in L. lia.
 Qed.
 
 (* the whole oracle *)
-Lemma c28_oracle_ok_lemma : forall m ps s1 s2,
-  NoDup (concat (map (must_write m) ps)) -> no_marker m ps = true ->
-  stopper (run s1 (init m ps)) = SIdle -> all_done (run s1 (init m ps)) = true ->
-  stopper (run s2 (step (run s1 (init m ps)) Stop)) = SDone ->
-  c28_ok m ps (observe (run s2 (step (run s1 (init m ps)) Stop))) = true.
+Lemma c28_oracle_ok_lemma : forall m d vf ps s1 s2,
+  NoDup (concat (must_all d m vf 0 ps)) -> no_marker m ps = true ->
+  stopper (run s1 (init m d vf ps)) = SIdle -> all_done (run s1 (init m d vf ps)) = true ->
+  stopper (run s2 (step (run s1 (init m d vf ps)) Stop)) = SDone ->
+  c28_ok d m vf ps (observe (run s2 (step (run s1 (init m d vf ps)) Stop))) = true.
 Proof.
-  intros m ps s1 s2 Hd NM Hidle Hdone Hs. unfold c28_ok.
-  rewrite (c28_oracle_complete_lemma m ps s1 s2 Hd NM Hidle Hdone Hs).
-  assert (E : run s2 (step (run s1 (init m ps)) Stop) = run (s1 ++ Stop :: s2) (init m ps))
+  intros m d vf ps s1 s2 Hd NM Hidle Hdone Hs. unfold c28_ok.
+  rewrite (c28_oracle_complete_lemma m d vf ps s1 s2 Hd NM Hidle Hdone Hs).
+  assert (E : run s2 (step (run s1 (init m d vf ps)) Stop) = run (s1 ++ Stop :: s2) (init m d vf ps))
     by (unfold run; rewrite fold_left_app; reflexivity).
-  rewrite E. rewrite (c28_oracle_sound_lemma m ps (s1 ++ Stop :: s2) Hd). cbn [andb].
+  rewrite E. rewrite (c28_oracle_sound_lemma m d vf ps (s1 ++ Stop :: s2) Hd). cbn [andb].
   apply c28_return_ok_lemma. rewrite <- E.
   (* producers that are done stay done *)
   assert (G : forall s c, all_done c = true -> all_done (run s c) = true).
